@@ -19,7 +19,8 @@ pub fn set_yield_hook(hook: fn(u32)) -> bool {
 
 /// Sites: 1 = `LangInterpreter::exec_group` per word, 2 = `WordToDigitParser::push`,
 /// 3 = `English::basic_annotate` per token, 4 = `French::basic_annotate` per token,
-/// 5 = `NumTracker::replace` per occurrence.
+/// 5 = `NumTracker::replace` per occurrence, 6 = `WordSplitter::is_splittable`,
+/// 7 = `WordSplitter::split` (methods of the splitter shared through `&self`).
 #[inline]
 pub fn yield_point(site: u32) {
     if let Some(hook) = YIELD_HOOK.get() {
